@@ -425,9 +425,16 @@ def coq_build(timeout=900):
         if not os.path.exists(os.path.join(COQDIR, "Makefile")):
             subprocess.run("coq_makefile -f _CoqProject -o Makefile", shell=True, cwd=COQDIR,
                            capture_output=True, timeout=60)
-        p = subprocess.run(f"timeout {timeout} make -j16", shell=True, cwd=COQDIR,
+        p = subprocess.run(f"timeout {timeout} make -k -j16", shell=True, cwd=COQDIR,
                            capture_output=True, text=True)
         return p.returncode == 0, (p.stdout + p.stderr)
+
+
+def vo_current(rel):
+    """Is coq/<rel>.vo built and at least as new as its source?"""
+    v = os.path.join(COQDIR, rel + ".v")
+    vo = os.path.join(COQDIR, rel + ".vo")
+    return os.path.exists(vo) and os.path.exists(v) and os.path.getmtime(vo) >= os.path.getmtime(v)
 
 
 def run_case_files(header, case_type, check_fn, cases, shard=400, workdir=None, timeout=600, jobs=12):
